@@ -55,10 +55,10 @@ def one(name):
     if checks_only: conf = fresh.get("confirmed_by_me", conf); old["confirmed_at_repo_head"] = fresh.get("confirmed_at_repo_head")
     if confirm_only: checks = dict(fresh.get("checks_quick_tier", {}))
     prop = old["breaks_property"]
-    rnd = "r8" if name.startswith("R8-") else "r7" if name.startswith("R7-") else "r6" if name.startswith("R6-") else "r5" if name.startswith("R5-") else "r4" if name.startswith("R4-") else "r3" if name.startswith("R3-") else "r2" if name.startswith("R2-") else "r1"
+    mr = re.match(r"R(\d+)-", name); rnd = "r" + mr.group(1) if mr else "r1"
     h = hist.get(rnd, {}).get(prop, ["", ""])
     meta = {
-        "name": name, "round": int(rnd[1]), "breaks_property": prop, "summary": old["summary"], "needs_to_manifest": old["needs_to_manifest"],
+        "name": name, "round": int(rnd[1:]), "breaks_property": prop, "summary": old["summary"], "needs_to_manifest": old["needs_to_manifest"],
         "origin": old["origin"], "confirmed_by_me": conf, "confirmed_at_repo_head": old.get("confirmed_at_repo_head") if checks_only else HEAD,
         "what_i_ran": "tools/finalize_seeds.py -> tools/eval_seeded.sh <this dir> <result dir> all  (scratch copy of /repo + patch: demo.sh on the changed and on the unchanged tree, tools/run_repo_tests.sh on the changed tree, the quick tier of the target check and of the checks with an adjacent subject (all 20 with SEED_ALL_CHECKS=1) with VERIF_REPO pointing at the copy); the official procedure (git -C /repo apply, run, git -C /repo checkout -- .) gives the same builds because the harness is built from a content hash of the tree",
         "checks_quick_tier": checks,
